@@ -19,7 +19,7 @@ use cat::{Sel, V3, EMARK, SMARK};
 pub struct C04;
 pub const CHECK: C04 = C04;
 pub fn plan(t: Tier) -> Plan {
-    let mut p = Plan::new(t.pick(4_000, 80_000), t.pick(2600, 4000));
+    let mut p = Plan::new(t.pick(16_000, 200_000), t.pick(2600, 4000));
     // the structural shrinker (own chain removal, hoisting, GenAST shrinking) does the work; keep tape shrinking short
     p.max_shrink_iters = 40;
     p
